@@ -338,6 +338,7 @@ const prelude = `(declare-sort Ref 0)
 (declare-datatypes ((Slice 0)) (((mkslice (sarr Ref) (soff Int) (slen Int) (scap Int)))))
 (declare-fun birth (Ref) Int)
 (declare-const nilref Ref)
+(assert (= (birth nilref) (- 1)))
 (declare-const nil_Iface Iface)
 (declare-const nil_Fn Fn)
 (declare-fun itag (Iface) Int)
